@@ -280,8 +280,12 @@ class RunDT(R.Run):
             await super().apply(real)
         finally:
             for key, val in real.items():       # hints written back by the runner
-                if key not in op:
+                if key not in op or (op['op'] == 'reload' and key in ('graph', 'failed', 'skipped')):
                     op[key] = val
+            if op['op'] == 'reload':
+                for key in ('graph', 'failed', 'skipped'):
+                    if key not in real:
+                        op.pop(key, None)
 
     def next_op(self, rng, pol, step):
         if self.stop_reason is None:
@@ -303,6 +307,13 @@ class RunDT(R.Run):
             if pol.get('p_trig') and rng.random() < pol['p_trig']:
                 # `cylc trigger` of ONE pooled waiting task, default flow (the case the expiry guard is about)
                 cands = sorted((pint(t.point), t.tdef.name) for t in waiting)
+                if pol.get('trig_unqueued'):
+                    # (queue-limit runs) tasks that are not queued: a full queue can only queue them
+                    unq = sorted((pint(t.point), t.tdef.name) for t in waiting
+                                 if not t.state.is_queued and not t.is_manual_submit)
+                    if unq and rng.random() < 0.85:
+                        cands = unq
+                        waiting = [t for t in waiting if not t.state.is_queued and not t.is_manual_submit]
                 if cands:
                     # prefer a task whose expiry is pending or due
                     due = sorted((pint(t.point), t.tdef.name) for t in waiting if t.expire_time is not None)
